@@ -10,6 +10,10 @@ From RPFT Require Import Base.Sexp Base.PyStr Base.Result Gen.Tables Flow.Lts Fl
      Comp.Compile.
 Import ListNotations.
 
+(* The constants probed from the tree must never be computed away by a proof step: every lemma is to hold for both
+   values (cbn / simpl would otherwise reduce `if flag then .. else ..` with the value of THIS run). *)
+Global Opaque explicit_names_claimed padding_edges_dropped_at_read has_group_edges_by_name has_group_by_name_from_noop.
+
 (* the test table both builders consult *)
 Definition nab (t : str) : bool := memb t no_args_tests.
 
@@ -36,7 +40,7 @@ Definition kind_dec0 (k : nkind) : option rdec :=
                 (match t with 0%N => None | _ => Some (CFixed s_NoResponse, DNone) end))
   | KSplitValue op sv => Some (mkDec false op WNone (render_result (Some sv)) [] [] wild0 None)
   | KSplitGroup sv => Some (mkDec false s_contact_groups WNone (render_result (Some sv)) [] [] wild0 None)
-  | KRandom sv => None
+  | KRandom sv => Some (mkDec true [] WNone (render_result (Some sv)) [] [] wild0 None)
   | KEnterFlow _ =>
     Some (mkDec false s_child_run_status WNone None
                 [(s_has_only_text, [Some s_completed], 0); (s_has_only_text, [Some s_expired], 1)]
@@ -91,34 +95,92 @@ Definition eclass_eqb (a b : eclass) : bool :=
   | _, _ => false
   end.
 
-(* one row of the fragment: unnamed categories on every edge; node rows without node names / given ids, not random,
-   carrying the class, the initial decision and at most the one action the reference reading of their kind gives *)
-Definition edge_okb (e : redge) : bool := match c_cname (e_cond e) with [] => true | _ => false end.
+(* ---------------------------------------------------------------- reading by the code of this run vs the reference reading
+   The reference (Flow/RowSem.v) never reads a padding entry as an edge and reads a has_group test as [_, group name]
+   in every kind of row.  The model follows the tree (Gen/Tables.v).  The two readings of a row agree when: *)
+Definition has_group_typed (c : econd) : bool := str_eqb (c_type c) has_group_s.
+(* no entry other than the first is blank throughout *)
+Definition no_paddingb (es : list redge) : bool := forallb (fun e => negb (edge_trivial e)) (tl es).
+Definition cond_agreesb (c : econd) : bool :=
+  (has_group_edges_by_name && has_group_by_name_from_noop) || negb (has_group_typed c).
+Definition edges_agreeb (es : list redge) : bool :=
+  (padding_edges_dropped_at_read || no_paddingb es) && forallb (fun e => cond_agreesb (e_cond e)) es.
 
-Definition row_okb (cr : crow) : bool :=
-  forallb edge_okb (r_edges (cr_row cr)) && match cr_uuid cr with [] => true | _ => false end &&
+(* one row of the fragment: node rows without node names / given ids, not random,
+   carrying the class, the initial decision and at most the one action the reference reading of their kind gives *)
+Definition gen_base (args : list (option str)) : str := join_char 95%N (map (fun a => title (arg_text a)) args).
+Fixpoint alts (k : nat) : str := match k with O => [] | S k' => s_alt ++ alts k' end.
+
+(* the invented names of a sheet: for every condition of the sheet the names generate_category_name may give its
+   category (the base name with any number of "_alt"), and the name of the default category *)
+Definition cond_bases (c : econd) : list str := [gen_base (ref_args c); gen_base [None; Some (c_value c)]].
+Definition sheet_bases (rows : list crow) : list str :=
+  flat_map (fun cr => flat_map (fun e => cond_bases (e_cond e)) (r_edges (cr_row cr))) rows.
+Definition gnameb (bases : list str) (n : str) : bool :=
+  str_eqb n s_Other || existsb (fun b => existsb (fun k => str_eqb n (b ++ alts k)) (seq 0 (S (length n)))) bases.
+
+(* the name RandomRouter.add_choice gives a bucket: the category name, else the value, else "Bucket <n>" *)
+Definition bucket_name (c : econd) : str := or_default (c_cname c) (c_value c).
+
+(* an explicit category name must not be one of them, nor "No Response"; an explicit bucket name does not look like an
+   invented one *)
+Definition edge_okb (bases : list str) (e : redge) : bool :=
+  (explicit_names_claimed ||
+   match c_cname (e_cond e) with [] => true | nm => negb (gnameb bases nm) && negb (str_eqb nm s_NoResponse) end)
+  && negb (starts_with s_Bucket (bucket_name (e_cond e))).
+
+Definition row_okb (bases : list str) (cr : crow) : bool :=
+  edges_agreeb (r_edges (cr_row cr)) &&
+  forallb (edge_okb bases) (r_edges (cr_row cr)) &&
+  (* the input encoding (harness/rowref.py, comp_corr.py): a given `_nodeId` is the row's node name; it is not the
+     hard-exit marker *)
+  match cr_uuid cr with [] => true | u => str_eqb (r_node_name (cr_row cr)) u && negb (str_eqb u hard_exit_sentinel) end &&
   match r_type (cr_row cr) with
   | TNode cls acts dec0 =>
-    match r_node_name (cr_row cr), cr_uuid cr with
-    | [], [] =>
-      eclass_eqb cls (kind_cls (cr_kind cr)) && rdec_eqb_shallow dec0 (kind_dec0 (cr_kind cr))
-      && match cr_kind cr with
-         | KBasic1 | KBasic2 => Nat.leb (length acts) 1
-         | KRandom _ => false
-         | KWait _ _ | KSplitValue _ _ | KSplitGroup _ => match acts with [] => true | _ => false end
-         | KEnterFlow _ | KWebhook _ | KAirtime _ => Nat.eqb (length acts) 1
-         end
-    | _, _ => false
-    end
+    eclass_eqb cls (kind_cls (cr_kind cr)) && rdec_eqb_shallow dec0 (kind_dec0 (cr_kind cr))
+    && match cr_kind cr with
+       | KBasic1 | KBasic2 => Nat.leb (length acts) 1
+       | KWait _ _ | KSplitValue _ _ | KSplitGroup _ | KRandom _ => match acts with [] => true | _ => false end
+       | KEnterFlow _ | KWebhook _ | KAirtime _ => Nat.eqb (length acts) 1
+       end
   | _ => true
   end.
 
-(* the sheet starts with a node row (the first node of the flow is the first node allocated) *)
-Definition fragb (rows : list crow) : bool :=
-  forallb row_okb rows && match rows with cr :: _ => match r_type (cr_row cr) with TNode _ _ _ => true | _ => false end | [] => false end.
+(* the executable test of the premises the refinement theorem still has (harness: wire 120 3) *)
+Definition fragb (rows : list crow) : bool := forallb (row_okb (sheet_bases rows)) rows.
+
+(* ---------------------------------------------------------------- names the compiler invents
+   A category the sheet does not name gets a name from the compiler: generate_category_name = the arguments,
+   title-cased and joined by "_", with "_alt" appended while the name is taken; the default category is "Other".
+   The reference leaves such a name open (CWild).  G is a set of names that holds every name the compiler may invent
+   for the sheet at hand; an EXPLICIT name (condition_name) is required to lie outside G and to differ from
+   "No Response": get_or_create_category looks a name up among ALL categories of the router, the invented ones, the
+   default and the No Response category included (the findings category-name-clash). *)
+Notation cluster := (nat * option nat)%type (only parsing).          (* the row's node, the implicit router *)
+
+Class GenNames := { gname : str -> Prop; gname_other : gname s_Other }.
+
+Section Rel.
+Context {GN : GenNames}.
+
+(* every name generate_category_name may give the category of this condition is in G *)
+Definition gen_ok (c : econd) : Prop :=
+  forall k, gname (gen_base (ref_args c) ++ alts k) /\ gname (gen_base [None; Some (c_value c)] ++ alts k).
+
+(* what the simulation needs of an edge condition: the code's arguments are the reference's; the category is
+   unnamed and its invented name lies in G, or named with a name outside G *)
+Definition is_bucket_name (n : str) : Prop := exists k, n = s_Bucket ++ dec_nat k.
+
+(* the premise on category names - needed only as long as an explicit name may hit a category it does not mean (the
+   finding category-name-clash; Gen/Tables.v: explicit_names_claimed says whether the tree has the repair) *)
+Definition cname_ok (c : econd) : Prop :=
+  if explicit_names_claimed then True
+  else match c_cname c with [] => gen_ok c | nm => ~ gname nm /\ nm <> s_NoResponse end.
+
+Definition cond_ok (c : econd) : Prop :=
+  row_args c = ref_args c /\ noop_args c = ref_args c /\ cname_ok c /\ ~ is_bucket_name (bucket_name c).
 
 (* ---------------------------------------------------------------- the simulation relation *)
-Notation cluster := (nat * option nat)%type (only parsing).          (* the row's node, the implicit router *)
 
 Definition dest_sim (phi : list cluster) (uu : list id) (d : dest) (d' : dst) : Prop :=
   match d, d' with
@@ -128,7 +190,9 @@ Definition dest_sim (phi : list cluster) (uu : list id) (d : dest) (d' : dst) : 
   | _, _ => False
   end.
 
-Definition name_sim (c : cname) (n : str) : Prop := match c with CFixed s => s = n | CWild => True end.
+(* a name the sheet fixes is the category's name; a name it leaves open is one of the invented names *)
+Definition name_sim (c : cname) (n : str) : Prop :=
+  match c with CFixed s => s = n | CWild => if explicit_names_claimed then True else gname n end.
 
 Definition cat_sim (phi : list cluster) (uu : list id) (x : cname * dest) (c : ccat) : Prop :=
   name_sim (fst x) (cc_name c) /\ dest_sim phi uu (snd x) (cat_dest c).
@@ -144,6 +208,13 @@ Definition wait_sim (phi : list cluster) (uu : list id) (d : rdec) (w : cwait) :
   | _, _ => False
   end.
 
+(* which categories carry an invented name (SwitchRouter._generated_name_uuids): exactly the ones the sheet leaves
+   unnamed; with the repair the names of a router are pairwise distinct *)
+Record marks_ok (d : rdec) (r : cswitch) : Prop := {
+  mk_marks : Forall2 (fun x c => memb (cc_uuid c) (sw_auto r) = match fst x with CWild => true | CFixed _ => false end) (rd_cats d) (sw_cats r);
+  mk_incl : incl (sw_auto r) (map cc_uuid (sw_cats r));
+  mk_names : explicit_names_claimed = true -> NoDup (map cc_name (sw_all_cats r)) }.
+
 Record dec_sim (phi : list cluster) (uu : list id) (d : rdec) (r : cswitch) : Prop := {
   ds_random : rd_random d = false;
   ds_operand : rd_operand d = sw_operand r;
@@ -152,10 +223,27 @@ Record dec_sim (phi : list cluster) (uu : list id) (d : rdec) (r : cswitch) : Pr
   ds_cats : Forall2 (cat_sim phi uu) (rd_cats d) (sw_cats r);
   ds_default : cat_sim phi uu (rd_default d) (sw_default r);
   ds_cases : Forall2 (case_sim (map cc_uuid (sw_all_cats r))) (rd_cases d) (sw_cases r);
-  ds_uuids : NoDup (map cc_uuid (sw_all_cats r)) }.
+  ds_uuids : NoDup (map cc_uuid (sw_all_cats r));
+  ds_marks : marks_ok d r }.
+
+(* a random split: buckets only; the i-th bucket, when the sheet does not name it, is called "Bucket <i+2>" *)
+Definition bucket_sim (phi : list cluster) (uu : list id) (ix : nat * (cname * dest)) (c : ccat) : Prop :=
+  match fst (snd ix) with
+  | CFixed s => s = cc_name c /\ ~ is_bucket_name s
+  | CWild => cc_name c = s_Bucket ++ dec_nat (fst ix + 2)
+  end /\ dest_sim phi uu (snd (snd ix)) (cat_dest c).
+
+Record rand_sim (phi : list cluster) (uu : list id) (d : rdec) (r : crandom) : Prop := {
+  rs_random : rd_random d = true;
+  rs_result : rd_result d = render_result (rr_result r);
+  rs_cats : Forall2 (bucket_sim phi uu) (number_from 0 (rd_cats d)) (rr_cats r);
+  rs_uuids : NoDup (map cc_uuid (rr_cats r)) }.
 
 (* every case of the decision leads to one of its own (non-default) categories: routers that only grow by add_case *)
-Definition plain_dec (d : rdec) : Prop := Forall (fun k => snd k < length (rd_cats d)) (rd_cases d).
+(* ... whose default category has a name the sheet leaves open ("Other") and whose No Response category is called so *)
+Definition plain_dec (d : rdec) : Prop :=
+  Forall (fun k => snd k < length (rd_cats d)) (rd_cases d) /\ fst (rd_default d) = CWild
+  /\ match rd_noresp d with Some x => fst x = CFixed s_NoResponse | None => True end.
 
 (* the shape of a decision by the Python class of its node *)
 Definition shape_ok (cls : swclass) (d : rdec) : Prop :=
@@ -172,6 +260,7 @@ Definition class_ok (cls : eclass) (rt : rowtype) (b : cbody) : Prop :=
   | EWait, BSwitch SPlain _ => rt = RTOther
   | ESplit, BSwitch SPlain _ => rt = RTSplitValue
   | EGroup, BSwitch SPlain _ => rt = RTSplitGroup
+  | ERandom, BRandom _ => rt = RTOther
   | EFlow, BSwitch SEnter _ => True
   | EOutcome, BSwitch SOutcome _ => True
   | _, _ => False
@@ -185,6 +274,9 @@ Inductive node_sim (phi : list cluster) (uu : list id) : rnode -> cnode -> optio
 | NS_router n nd cls r d :
     rn_dec n = Some d -> cn_body nd = BSwitch cls r -> map snd (cn_actions nd) = rn_actions n ->
     dec_sim phi uu d r -> shape_ok cls d -> node_sim phi uu n nd None
+| NS_random n nd r d :
+    rn_dec n = Some d -> cn_body nd = BRandom r -> map snd (cn_actions nd) = rn_actions n ->
+    rand_sim phi uu d r -> node_sim phi uu n nd None
 | NS_implicit n nd e nr r d :
     rn_dec n = Some d -> cn_body nd = BBasic e -> map snd (cn_actions nd) = rn_actions n ->
     x_dest e = Some (cn_uuid nr) -> cn_uuid nr <> hard_exit_sentinel ->
@@ -204,9 +296,9 @@ Inductive group_sim (phi : list cluster) (cn : list cnode) : group -> cgroup -> 
 | GS_row k cls c rt nd :
     nth_error phi k = Some c -> nth_error cn (fst c) = Some nd -> class_ok cls rt (cn_body nd) ->
     group_sim phi cn (GRow k cls) (CGRow (fst c) (match snd c with Some j => [j] | None => [] end) rt)
-| GS_noop ps : Forall (fun p => c_cname (snd p) = []) ps -> group_sim phi cn (GNoOp ps None) (CGNoOp ps None)
+| GS_noop ps : Forall (fun p => cond_ok (snd p)) ps -> group_sim phi cn (GNoOp ps None) (CGNoOp ps None)
 | GS_noop_router ps k k1 nd r :
-    Forall (fun p : nat * econd => c_cname (snd p) = []) ps ->
+    Forall (fun p : nat * econd => cond_ok (snd p)) ps ->
     nth_error phi k = Some (k1, None) -> nth_error cn k1 = Some nd -> cn_body nd = BSwitch SPlain r ->
     group_sim phi cn (GNoOp ps (Some k)) (CGNoOp ps (Some k1))
 | GS_block ms : group_sim phi cn (GBlock ms) (CGBlock ms).
@@ -225,4 +317,11 @@ Record Sim (phi : list cluster) (sr : st) (sc : cstate) : Prop := {
   (* the decision node of a no_op carries no action *)
   sim_acts : forall g ps k n, nth_error (s_groups sr) g = Some (GNoOp ps (Some k)) -> nth_error (s_nodes sr) k = Some n -> rn_actions n = [];
   sim_rowmap : s_rowmap sr = cs_rowmap sc;
-  sim_stack : s_stack sr = cs_stack sc }.
+  sim_stack : s_stack sr = cs_stack sc;
+  (* node names: the reference maps a name to a node, the compiler to the first node of its cluster *)
+  sim_names : forall nm, nm <> [] ->
+              match alookup (s_names sr) nm with
+              | Some k => exists c, nth_error phi k = Some c /\ alookup (cs_names sc) nm = Some (fst c)
+              | None => alookup (cs_names sc) nm = None
+              end }.
+End Rel.
